@@ -107,6 +107,12 @@ class Exec:
             return ("opq", "float:" + t)
         if t == "()":
             return ("opq", "unit")
+        m = re.match(r"^core::num::<impl (\w+)>::(MAX|MIN)$", t)
+        if m and m.group(1) in INT_W:
+            w = INT_W[m.group(1)]
+            signed = m.group(1).startswith("i")
+            v = ((1 << (w - 1)) - 1 if signed else (1 << w) - 1) if m.group(2) == "MAX" else (-(1 << (w - 1)) if signed else 0)
+            return ("bv", bvlit(v, w), w)
         if t.startswith("ZeroSized") or "promoted[" in t or t.startswith("{"):
             return ("opq", "const:" + t)
         # named constant (possibly path-qualified): resolve through the dump
